@@ -733,7 +733,7 @@ def gen_import_tree(r, root):
   """A small import graph on disk: chains, diamonds, equal base names in two directories,
   aliases, and a file defining both P and <Prefix>_P."""
   files = {}
-  shape = r.choice(['chain', 'diamond', 'samebase', 'prefix_clash', 'alias', 'prefix_clash', 'two_mains', 'two_mains', 'two_roots'])
+  shape = r.choice(['chain', 'diamond', 'samebase', 'prefix_clash', 'alias', 'prefix_clash', 'two_mains', 'two_mains', 'two_roots', 'two_roots'])
   eng = '@Engine("sqlite");\n'
   if shape == 'chain':
     files['lib/c.l'] = 'Base(1); Base(2); Base(3);\nC(x) :- Base(x), x > 1;\n'
@@ -897,6 +897,13 @@ def gen_history(r, pool, max_ops=None):
     b = r.randrange(a + 1, len(ops) + 1)
     pj = r.choice(dep)
     ops.insert(b, ['compile', pj, r.choice(pool[pj]['preds'])])
+  # a program whose import roots are a list the caller keeps: compiled twice
+  listed = [i for i, q in enumerate(pool) if isinstance(q.get('root'), list)]
+  if listed and r.random() < 0.7:
+    pi = r.choice(listed)
+    a = r.randrange(len(ops) + 1)
+    ops.insert(a, ['compile', pi, 'T'])
+    ops.insert(r.randrange(a + 1, len(ops) + 1), ['compile', pi, 'T'])
   # a request that fails late, then another predicate on the same program object
   typed = [i for i, q in enumerate(pool) if q['kind'] == 'typed' and 'T9' in q['preds']]
   if typed and r.random() < 0.6:
